@@ -15,6 +15,11 @@ package net
 //   - mutated payloads that decode: decode(encode(decode(b))) == decode(b) (semantic idempotence).
 //   - payloads that differ from a valid one only in the width of 1-3 length prefixes (c24_nonmin_test.go):
 //     rejected, or the returned message re-serializes to exactly the received frame.
+//   - held results (c24_held_test.go): messages returned by ReadMessage and buffers returned by the
+//     encoder side are kept next to a copy taken at return time while 1-8 further frames are read from
+//     the same and from other readers / further messages are written (optionally also by joined
+//     goroutines), and must then be unchanged, reproducible, independent of the caller's buffers and of
+//     each other, and usable again.
 
 import (
 	"bytes"
